@@ -298,4 +298,20 @@ def run(ctx, prog):
                  ('the slot looked up before the compaction is used at %s after it' % f.loc_of(stale[0])) if stale else
                  '%d compaction call(s), %d lookup(s), %d use site(s) of looked-up slots; every use after a compaction is behind a new lookup' % (len(comp), len(look), len(set(uses))))
     ctx.floor('C06.R6', 'compaction call sites', n6, 1, 'HnswBackend::insert (full index with tombstones)')
+    # …and no writer can be between its slot lookup and its apply while the compaction runs: writers keep the write gate over that span (C05.R2 / C09.R1), so
+    # the compaction must hold the write gate — unconditionally, the snapshot lock exists only with persistence — whenever it rewrites the store
+    from kvstatic.locks import LockModel as _LM6
+    lm6 = _LM6(prog)
+    ct = ctx.body('C06.R6', 'HnswBackend::compact_tombstones')
+    if ct is not None:
+        k6 = 0
+        for bb, a in sorted(lm6.body_acqs.get(ct.id, {}).items()):
+            if a.cls in ('HnswBackend.doc_store', 'HnswBackend.index') and a.mode in ('W', 'U'):
+                h = lm6.held_at(ct, bb)
+                g = h.get('HnswBackend.write_gate')
+                ctx.inst('C06.R6', ct.short, 'write gate held (in every mode) at %s.write() #%d' % (a.cls.split('.')[-1], k6), g is not None and not g[1],
+                         'held at %s: %s%s' % (a.call.loc, {k_: ('optional ' if v_[1] else '') + v_[0] for k_, v_ in h.items()},
+                                               '' if g is not None and not g[1] else ' — in an in-memory backend nothing keeps a writer that already looked up its slot out of the renumbering'))
+                k6 += 1
+        ctx.floor('C06.R6', 'exclusive store / index acquisitions in compact_tombstones', k6, 2, 'index.write, doc_store.write')
     ctx.stat('functions_analysed', len(set(i['key'].split(' | ')[1] for i in ctx.instances)))
